@@ -80,6 +80,7 @@ def generate(seed, tier):
     if law == "gain" and rw.random() < 0.3:
         singles.append(["edge", rw.choice([0.0, 0.5]), rw.choice([16, 32, 33, 64])])      # DC / Nyquist bin, explicit L
     # attributes a user may read before the transfer function (exports, conditioned spectra, error bars ...)
+    auto_first = rw.random() < 0.3      # the first channel analysed alone (same plan) before the pair, in the same process
     pre_access = rw.sample(RM.CROSS_ONLY + ["Gxx", "Gyy", "Gxy", "ENBW", "to_dataframe"], rw.randrange(0, 5)) if rw.random() < 0.5 else []
     # further stages: the caller refills the SAME preallocated buffer in place and analyses again
     refills = []
@@ -89,7 +90,7 @@ def generate(seed, tier):
         g2 = rw.choice([1.0, -1.0, 2.0, 0.5, -3.0, 7.0])
         data2 = dict(data, recipe=rw.choice(["noise", "multisine", "randwalk"]), rng=rw.randrange(2 ** 31), N=N + d2)
         refills.append({"law": law2, "g": g2, "d": d2, "data": data2})
-    return {"law": law, "g": g, "d": d, "N": N, "data": data, "cfg": cfg, "singles": singles, "refills": refills, "pre_access": pre_access,
+    return {"law": law, "g": g, "d": d, "N": N, "data": data, "cfg": cfg, "singles": singles, "refills": refills, "pre_access": pre_access, "auto_first": auto_first,
             "worlds": [W.gen_world(rf, k, 8) for k in kinds], "clock": CK.gen_clock(R.stream(seed, "clock"), p_none=0.5)}
 
 
@@ -150,6 +151,12 @@ def _execute_stage(sc, out, buf, stage):
         cfg["backend"] = W.backend_of(ws)
         try:
             with clock.installed(), W.analysis_world(ws) as ctx:
+                if sc.get("auto_first"):
+                    try:
+                        SC.build_analyzer(np.array(data[0], copy=True), cfg).compute()
+                        out.count("auto_analysis_before_pair")
+                    except Exception:
+                        pass
                 an = SC.build_analyzer(data, cfg)
                 try:
                     an.plan()
@@ -226,6 +233,14 @@ def _execute_stage(sc, out, buf, stage):
         views = [("compute", j, H[j], coh[j], XX[j]) for j in range(nf)]
         for j, rs in sing:
             views.append(("single", j, complex(np.asarray(rs.Hxy)[0]), float(np.asarray(rs.coh)[0]), float(np.asarray(rs.XX)[0])))
+            # the two public routes to one bin: same segmentation => same transfer function (within the rounding budget)
+            if np.array_equal(np.asarray(rs.D[0]), np.asarray(res.D[j])) and XX[j] > 0:
+                hs = complex(np.asarray(rs.Hxy)[0])
+                tol_r = 128 * RM.EPS * max(int(Ls[j]), 8) ** 2 * S_est[j] ** 2 * (max(abs(g), 1.0) if law == "gain" else 1.0) / XX[j] + 1e-12 * abs(H[j])
+                out.count("single_vs_compute_same_segmentation")
+                if XX[j] >= 1e-6 * S_est[j] ** 2 and not abs(hs - H[j]) <= tol_r:
+                    out.violate("single_bin_disagrees_with_compute", f"backend={backend}",
+                                f"world={world} bin {j} (L={int(Ls[j])}, K={len(res.D[j])}): compute() gives Hxy={H[j]!r}, compute_single_bin at the same f, L and segmentation gives {hs!r}")
         for via, j, h, c, xx in views:
             L = int(Ls[j])
             S = S_est[j]
